@@ -135,6 +135,16 @@ func (s *sched) execLine(line string) bool {
 			return false
 		}
 		s.closeTask(t)
+	case "closerace":
+		a := taskAt("holding")
+		if a == nil || len(w) < 3 {
+			return false
+		}
+		m, err := strconv.Atoi(w[2])
+		if err != nil || m < 0 || m >= len(s.tasks) || s.tasks[m].st != "got" {
+			return false
+		}
+		s.closeRace(a, s.tasks[m])
 	case "read":
 		t := taskAt("holding")
 		if t == nil {
